@@ -114,6 +114,9 @@ type Violation struct {
 	Where   string            `json:"where,omitempty"`
 	Key     string            `json:"key,omitempty"`
 	Replayed bool             `json:"engine_concrete_replay"`
+	Choices  []int            `json:"choices"`
+	Labels   []string         `json:"labels,omitempty"`
+	Native   string           `json:"native_reproduced"`
 }
 
 type deferred struct {
@@ -206,6 +209,7 @@ type Machine struct {
 	initDone    bool
 	schedPoints int
 	labels      []string
+	choices      []int
 	pendingModel map[string]uint64
 	ids          int
 	stepDepth    int
@@ -522,6 +526,9 @@ func (m *Machine) obligation(cond *Term, kind, id, msg string) {
 func (m *Machine) violation(kind, id, msg string, mod map[string]uint64) {
 	v := &Violation{Kind: kind, ID: id, Msg: msg, Trail: append([]int{}, m.trail[:m.pos]...), Model: mod, Harness: m.harness, Where: m.where()}
 	v.Observe = append(v.Observe, m.observes...)
+	v.Choices = append([]int{}, m.choices...)
+	v.Labels = append([]string{}, m.labels...)
+	v.Native = "not_attempted"
 	m.w.report(v)
 	panic(pathEnd{"violation", id})
 }
